@@ -36,10 +36,12 @@ type access struct {
 }
 
 type lockFacts struct {
-	Accesses         []access `json:"accesses"`        // (A)
-	Writes           []access `json:"writes"`          // (B)
-	TableMutations   []access `json:"table_mutations"` // (C)
-	Functions        []string `json:"functions"`       // functions touching conns/numSubs
+	Accesses         []access `json:"accesses"`          // (A)
+	Writes           []access `json:"writes"`            // (B)
+	TableMutations   []access `json:"table_mutations"`   // (C)
+	ForeignDeadlines []access `json:"foreign_deadlines"` // (D): must be empty
+	ConnWriteLocks   []access `json:"conn_write_locks"`  // (E): one per write of Send
+	Functions        []string `json:"functions"`         // functions touching conns/numSubs
 	AllGuarded       bool     `json:"all_guarded"`
 	SendFound        bool     `json:"send_found"`
 	SubscribeFound   bool     `json:"subscribe_found"`
@@ -346,6 +348,90 @@ func lockcheckCmd(args []string) error {
 			}
 			walk(fd.Body.List)
 		}
+		// (E) per-connection serialisation of deadline + write + clear in Send
+		if name == "ChanMap.Send" {
+			recv := recvName(fd)
+			var walkE func(list []ast.Stmt)
+			walkE = func(list []ast.Stmt) {
+				for i, st := range list {
+					switch x := st.(type) {
+					case *ast.BlockStmt:
+						walkE(x.List)
+						continue
+					case *ast.ForStmt:
+						walkE(x.Body.List)
+						continue
+					case *ast.RangeStmt:
+						walkE(x.Body.List)
+						continue
+					case *ast.IfStmt:
+						walkE(x.Body.List)
+						if eb, ok := x.Else.(*ast.BlockStmt); ok {
+							walkE(eb.List)
+						}
+					}
+					// a statement of this block that writes to a connection
+					base := ""
+					ast.Inspect(st, func(n ast.Node) bool {
+						if _, ok := n.(*ast.BlockStmt); ok {
+							return false
+						}
+						if c, ok := n.(*ast.CallExpr); ok {
+							if se, ok := c.Fun.(*ast.SelectorExpr); ok && se.Sel.Name == "Write" {
+								base = selString(se.X)
+							}
+						}
+						return true
+					})
+					if base == "" {
+						continue
+					}
+					a := access{File: fi.file, Func: name, Line: fset.Position(st.Pos()).Line, What: "connWriteLock(" + base + ") around deadline+write+clear"}
+					// wl := recv.connWriteLock(base) ; wl.Lock() before the first SetWriteDeadline of base
+					lockVar, lockedAt, firstSet, lastSet, unlockedAt := "", -1, -1, -1, -1
+					for j, t := range list {
+						if as, ok := t.(*ast.AssignStmt); ok && len(as.Lhs) == 1 && len(as.Rhs) == 1 {
+							if c, ok := as.Rhs[0].(*ast.CallExpr); ok && selString(c.Fun) == recv+".connWriteLock" && len(c.Args) == 1 && selString(c.Args[0]) == base {
+								if id, ok := as.Lhs[0].(*ast.Ident); ok {
+									lockVar = id.Name
+								}
+							}
+						}
+						nm, isDefer := callName(t)
+						if lockVar != "" && nm == lockVar+".Lock" && !isDefer && lockedAt < 0 {
+							lockedAt = j
+						}
+						if lockVar != "" && nm == lockVar+".Unlock" && !isDefer {
+							unlockedAt = j
+						}
+						ast.Inspect(t, func(n ast.Node) bool {
+							if c, ok := n.(*ast.CallExpr); ok && selString(c.Fun) == base+".SetWriteDeadline" {
+								if firstSet < 0 {
+									firstSet = j
+								}
+								lastSet = j
+							}
+							return true
+						})
+					}
+					switch {
+					case lockVar == "" || lockedAt < 0:
+						a.Why = "no wl := " + recv + ".connWriteLock(" + base + "); wl.Lock() in the block of the write"
+					case firstSet < 0 || !(lockedAt < firstSet && firstSet < i && i <= lastSet):
+						a.Why = "the lock does not enclose SetWriteDeadline, Write and the clearing SetWriteDeadline in this order"
+					case unlockedAt < lastSet:
+						a.Why = "wl.Unlock() does not come after the deadline is cleared"
+					default:
+						a.Guarded = true
+					}
+					if !a.Guarded {
+						facts.AllGuarded = false
+					}
+					facts.ConnWriteLocks = append(facts.ConnWriteLocks, a)
+				}
+			}
+			walkE(fd.Body.List)
+		}
 		// (C) mutations of the channel table
 		if strings.HasPrefix(name, "ChanMap.") {
 			recv := recvName(fd)
@@ -383,11 +469,57 @@ func lockcheckCmd(args []string) error {
 			})
 		}
 	}
+	// (D) nobody else touches write deadlines of client connections
+	for _, sub := range []string{"memdb", "server", "resp"} {
+		fs2 := token.NewFileSet()
+		pk, err := parser.ParseDir(fs2, filepath.Join(args[0], sub), func(fi os.FileInfo) bool {
+			return !strings.HasSuffix(fi.Name(), "_test.go")
+		}, 0)
+		if err != nil {
+			return err
+		}
+		for _, pkg := range pk {
+			names := make([]string, 0, len(pkg.Files))
+			for n := range pkg.Files {
+				names = append(names, n)
+			}
+			sort.Strings(names)
+			for _, n := range names {
+				for _, d := range pkg.Files[n].Decls {
+					fd, ok := d.(*ast.FuncDecl)
+					if !ok || fd.Body == nil {
+						continue
+					}
+					fn := fname(fd)
+					if sub == "memdb" && fn == "ChanMap.Send" {
+						continue
+					}
+					ast.Inspect(fd.Body, func(m ast.Node) bool {
+						c, ok := m.(*ast.CallExpr)
+						if !ok {
+							return true
+						}
+						se, ok := c.Fun.(*ast.SelectorExpr)
+						if !ok || (se.Sel.Name != "SetWriteDeadline" && se.Sel.Name != "SetDeadline") {
+							return true
+						}
+						facts.ForeignDeadlines = append(facts.ForeignDeadlines, access{
+							File: sub + "/" + filepath.Base(n), Func: fn, Line: fs2.Position(c.Pos()).Line,
+							What: selString(c.Fun), Guarded: false,
+							Why: "sets or clears the write deadline of a connection outside ChanMap.Send: if the connection is a subscriber this can take away (or extend) the deadline a PUBLISH relies on",
+						})
+						facts.AllGuarded = false
+						return true
+					})
+				}
+			}
+		}
+	}
 	for n := range funcsTouching {
 		facts.Functions = append(facts.Functions, n)
 	}
 	sort.Strings(facts.Functions)
-	if !facts.SendFound || !facts.SubscribeFound || !facts.UnSubscribeFound || len(facts.Accesses) == 0 || len(facts.Writes) == 0 {
+	if !facts.SendFound || !facts.SubscribeFound || !facts.UnSubscribeFound || len(facts.Accesses) == 0 || len(facts.Writes) == 0 || len(facts.ConnWriteLocks) == 0 {
 		// the code no longer has the shape the model describes
 		facts.AllGuarded = false
 	}
